@@ -1,6 +1,7 @@
 (* PV.C10.Properties — the property theorems of C10 and nothing else. *)
 From Coq Require Import QArith List Bool PArith Arith.
 From PV Require Import Base.PyData Base.Expr Base.Stmts C10.Model C10.Proofs C10.ProofsRsd C10.ProofsSubs.
+From PV Require Import C10.ModelUnused C10.ProofsUnused C10.ProofsUnused2 C10.ProofsOde C10.ProofsReassign C10.ProofsRename.
 
 (* Expanding an expression to its full definition evaluates to the same value as executing the
    statements in order: for every statement list without a compartmental system (on which the
@@ -103,3 +104,131 @@ Theorem subs_leaf_is_environment_update :
     g_subs_leaf m l = true -> alookup m x = None ->
     exec fi ode r (subs_stmts m l) x = exec fi ode (upd_map r fi m) l x.
 Proof. exact subs_leaf_sound. Qed.
+
+(* ---- remove_unused_parameters_and_rvs / _get_unused_parameters_and_rvs (C10/ModelUnused.v) ----------
+   For EVERY statement list (assignments, piecewise, compartmental systems), parameter list and random
+   variable collection (single normal and joint normal distributions of any size): *)
+
+(* every parameter and every random variable that the call removes occurs in no statement ... *)
+Theorem unused_removed_occur_in_no_statement :
+  forall (l : list stmt) (params : list param) (rvs : list dist) (y : id),
+    In y (removed_names l params rvs) -> ~ In y (stmts_free l).
+Proof. exact removed_not_in_statements. Qed.
+
+(* ... hence has no influence on any statement: two initial environments that differ only on removed
+   names give every other symbol the same value after executing the whole list, for every
+   interpretation of the function symbols and every ODE solver oracle. *)
+Theorem unused_removal_has_no_influence :
+  forall (fi : finterp) (ode : id -> list (option Q) -> option Q) (l : list stmt) (params : list param)
+         (rvs : list dist) (r r' : env) (y : id),
+    (forall z, ~ In z (removed_names l params rvs) -> r z = r' z) ->
+    ~ In y (removed_names l params rvs) ->
+    exec fi ode r l y = exec fi ode r' l y.
+Proof. exact removal_no_influence_lemma. Qed.
+
+(* Everything that occurs in a statement is kept. *)
+Theorem used_parameter_kept :
+  forall (l : list stmt) (params : list param) (rvs : list dist) (p : param),
+    In p params -> In (p_sym p) (stmts_free l) -> In p (new_params l params rvs).
+Proof. exact used_param_kept_lemma. Qed.
+
+Theorem used_rv_kept :
+  forall (l : list stmt) (rvs : list dist) (n : id),
+    In n (rvs_names rvs) -> In n (stmts_free l) -> In n (rvs_names (new_rvs l rvs)).
+Proof. exact used_rv_kept_lemma. Qed.
+
+(* Exactness for parameters: the kept parameters are exactly the input parameters that occur in a
+   statement, or in a kept distribution, or are fixed to 0 (the exemption the code makes on purpose). *)
+Theorem kept_parameters_exact :
+  forall (l : list stmt) (params : list param) (rvs : list dist) (p : param),
+    In p (new_params l params rvs) <->
+    In p params /\ (In (p_sym p) (stmts_free l) \/ In (p_sym p) (rvs_free (new_rvs l rvs)) \/ fixed_zero p = true).
+Proof. exact new_params_spec. Qed.
+
+(* Exactness for random variables, direction "nothing is kept without a reason": every kept random
+   variable is a random variable of the input that occurs in a statement, or whose mean or own row of the
+   covariance matrix mentions a symbol that occurs in a statement. *)
+Theorem kept_rv_has_reason :
+  forall (l : list stmt) (rvs : list dist) (n : id),
+    In n (rvs_names (new_rvs l rvs)) -> exists d, In d rvs /\ rv_reason (stmts_free l) d n = true.
+Proof. exact kept_rv_has_reason_lemma. Qed.
+
+Theorem kept_rvs_are_input_rvs :
+  forall (l : list stmt) (rvs : list dist) (n : id),
+    In n (rvs_names (new_rvs l rvs)) -> In n (rvs_names rvs).
+Proof. exact new_rvs_names_incl. Qed.
+
+(* a removed parameter is not needed by a remaining distribution either *)
+Theorem removed_parameter_not_in_kept_distribution :
+  forall (l : list stmt) (params : list param) (rvs : list dist) (p : param),
+    In p params -> ~ In p (new_params l params rvs) -> ~ In (p_sym p) (rvs_free (new_rvs l rvs)).
+Proof. exact removed_param_not_in_rvs. Qed.
+
+(* Exactness for random variables, converse direction: in a well-formed collection (unique names, square
+   symmetric covariance matrices — what a RandomVariables object is) every random variable with a reason
+   is kept: it occurs in a statement, or its mean or a parameter of its own row of the covariance matrix
+   does.  Together with kept_rv_has_reason: kept <-> reason. *)
+Theorem rv_with_reason_kept :
+  forall (l : list stmt) (rvs : list dist) (d : dist) (n : id),
+    wf_rvs rvs = true -> In d rvs -> rv_reason (stmts_free l) d n = true ->
+    In n (rvs_names (new_rvs l rvs)).
+Proof. exact rv_with_reason_kept_lemma. Qed.
+
+(* ---- dependencies through the ODE system ------------------------------------------------------------
+   s is defined by the last statement, after a compartmental system; its defining expression reads the
+   amount a (not reassigned in between); the system reads y and y is never assigned before the system (a
+   parameter, random variable or data column): then y is among the reported dependencies of s — for every
+   prefix, system, middle part and expression. *)
+Theorem dependencies_through_ode :
+  forall (pre : list stmt) (amts rh : list id) (mid : list stmt) (s : id) (e : expr) (a y : id) (D : list id),
+    In a amts -> In a (free_syms e) -> (forall st, In st mid -> ~ In a (defs st)) ->
+    In y rh -> (forall st, In st pre -> ~ In y (defs st)) ->
+    dependencies (pre ++ Ode amts rh :: mid ++ (Assign s e :: nil)) s = Ok D -> In y D.
+Proof. exact dependencies_through_ode_lemma. Qed.
+
+(* dependencies_sound (above) holds for every solver oracle that is given the values of the system's free
+   symbols.  The same for a solver that may inspect the WHOLE environment, under the explicit hypothesis
+   that its answer only depends on the values of the system's free symbols: *)
+Theorem dependencies_sound_env_oracle :
+  forall (fi : finterp) (odeg : list id -> list id -> id -> env -> option Q),
+    (forall amts rh a r r', agree_on rh r r' -> odeg amts rh a r = odeg amts rh a r') ->
+    forall (l : list stmt) (s : id) (D : list id) (r r' : env),
+      dependencies l s = Ok D -> agree_on D r r' ->
+      execg fi odeg r l s = execg fi odeg r' l s.
+Proof. exact dependencies_sound_env_oracle_lemma. Qed.
+
+(* ---- find_assignment / reassign / subs as sequential program edits, at the level of values ----------
+   find_assignment returns the statement that determines the final value of the symbol (unless a later
+   compartmental system has it among its amounts). *)
+Theorem find_assignment_value :
+  forall (fi : finterp) (ode : id -> list (option Q) -> option Q) (l : list stmt) (s : id) (i : nat) (r : env),
+    find_assignment_index l s = Some i -> g_not_overwritten l s = true ->
+    exists e, find_assignment l s = Some (Assign s e) /\
+              exec fi ode r l s = eval (exec fi ode r (firstn i l)) fi e.
+Proof. exact find_assignment_value_lemma. Qed.
+
+(* after reassign s e the program computes for s the value of e in the state reached by the statements
+   that preceded the last assignment of s (the earlier assignments of s being deleted) ... *)
+Theorem reassign_value :
+  forall (fi : finterp) (ode : id -> list (option Q) -> option Q) (l : list stmt) (s : id) (e : expr) (r : env),
+    g_not_overwritten l s = true ->
+    exec fi ode r (reassign l s e) s = eval (exec fi ode r (before_last_assignment l s)) fi e.
+Proof. exact reassign_value_lemma. Qed.
+
+(* ... and every symbol that does not (transitively, with shadowing) depend on an assignment of s keeps
+   its value: for every program, symbol, expression, environment, interpretation and ODE oracle. *)
+Theorem reassign_preserves_untainted :
+  forall (fi : finterp) (ode : id -> list (option Q) -> option Q) (l : list stmt) (s : id) (e : expr) (r : env) (x : id),
+    ~ In x (reassign_taint l s) -> exec fi ode r (reassign l s e) x = exec fi ode r l x.
+Proof. exact reassign_untainted_lemma. Qed.
+
+(* Statements.subs({A: Z}) for an ASSIGNED symbol A and a fresh Z is a consistent renaming: started with
+   Z holding A's initial value, the renamed program computes for Z what the original computes for A, and
+   the same value for every other symbol. *)
+Theorem subs_rename_assigned_symbol :
+  forall (fi : finterp) (ode : id -> list (option Q) -> option Q) (a z : id) (l : list stmt) (r : env),
+    g_rename a z l = true ->
+    exec fi ode (upd r z (r a)) (subs_stmts ((a, Sym z) :: nil) l) z = exec fi ode r l a /\
+    forall x, x <> a -> x <> z ->
+      exec fi ode (upd r z (r a)) (subs_stmts ((a, Sym z) :: nil) l) x = exec fi ode r l x.
+Proof. exact subs_rename_lemma. Qed.
